@@ -1,9 +1,9 @@
 package rules
 
 import (
-	"sort"
 	"fmt"
 	"go/types"
+	"sort"
 	"strings"
 
 	"golang.org/x/tools/go/ssa"
@@ -585,6 +585,25 @@ func sDelete(c *Ctx, rule string) {
 	})
 }
 
+// S-WRITERS: who may append to the log and who may write the stable store.
+// Contiguity, term monotonicity and "durable before counted" are argued per
+// writer; a writer the rules have never read is outside every such argument.
+func sStoreWriters(c *Ctx, rule string) {
+	c.WhoMay(rule, "call LogStore.StoreLogs/StoreLog", c.P.CallsEverywhere(engine.Is("iface:LogStore.StoreLogs", "iface:LogStore.StoreLog")), map[string]string{
+		"(*Raft).dispatchLogs":               "leader append (C04.R5/C03.R1)",
+		"(*Raft).appendEntries":              "follower append after the consistency check (C04.R1–R3)",
+		"BootstrapCluster":                   "the bootstrap configuration entry, index 1 term 1, on an empty store",
+		"(*LogCache).StoreLogs":              "LogStore implementation delegating to its backend",
+		"(*MockMonotonicLogStore).StoreLog":  "test helper store (testing.go) delegating to its backend",
+		"(*MockMonotonicLogStore).StoreLogs": "test helper store (testing.go) delegating to its backend",
+	})
+	c.WhoMay(rule, "call StableStore.Set/SetUint64", c.P.CallsEverywhere(engine.Is("iface:StableStore.Set", "iface:StableStore.SetUint64")), map[string]string{
+		"(*Raft).persistVote":    "the vote record (C06.R3)",
+		"(*Raft).setCurrentTerm": "the term, persisted before published (C06.R5)",
+		"BootstrapCluster":       "term 1 on an empty store",
+	})
+}
+
 // rangeBodyAlways finds the range loops over the slice `ranged` in fn whose
 // body contains the event, and checks that every path through the body, from
 // its first block back to the loop test, executes the event.
@@ -934,7 +953,6 @@ func sVoteIdentity(c *Ctx, rule string) {
 	}
 }
 
-
 // S-COMMITCFG: configurations.committed follows the commit index. Every site
 // that raises the commit index decides, in the same pass, whether the latest
 // configuration entry is now covered, and promotes it when it is. At start-up
@@ -1045,7 +1063,6 @@ func sCommitCoversConfig(c *Ctx, rule string) {
 	}
 }
 
-
 // coreCommitBundle: the rule groups every "what is committed stays committed
 // and is what clients were told" property depends on, whichever of them a
 // change is filed under: voter-only commitment slots, the quorum element, the
@@ -1070,7 +1087,6 @@ func coreCommitBundle(c *Ctx, rule string, skip ...string) {
 	run("C01.R5", c01R5)
 	run("S-QUORUM", sQuorum)
 }
-
 
 // S-MAINSEND: a plain (non-select) send executed by the main goroutine – or by
 // respond(), which every goroutine calls – must never block: its channel is
@@ -1131,7 +1147,6 @@ func sMainSendsBuffered(c *Ctx, rule string) {
 		c.Bad(rule, "main-goroutine-sends", "-", "the known plain sends (stopCh, doneCh, self votes, errCh)", fmt.Sprintf("%d found", n))
 	}
 }
-
 
 // S-FASTPATH: the transport may run the follower's AppendEntries handler on
 // its own goroutine (heartbeat fast path), concurrently with the main loop.
